@@ -103,13 +103,15 @@ TraceClose ==
   /\ UNCHANGED <<W, maxQ, seen, dispatched, fusion, inQueue, busy, rel, written, filePos, addrLen, exited, writerDone, drift>>
 TraceWorkerExit ==
   /\ IsHook("PWorkerExit")
-  /\ (closed /\ dispatched = {} /\ BusyOf(Rec[l].thread) = Unset /\ Rec[l].thread \notin exited) = TRUE
+  \* (another worker may have received the last cluster and not logged its PTake yet: the emptiness of the
+  \*  dispatch channel is required when the writer leaves, not here)
+  /\ (closed /\ BusyOf(Rec[l].thread) = Unset /\ Rec[l].thread \notin exited) = TRUE
   /\ exited' = exited \cup {Rec[l].thread}
   /\ UNCHANGED <<W, maxQ, seen, dispatched, fusion, inQueue, busy, rel, written, filePos, addrLen, closed, writerDone, drift>>
 TraceWriterExit ==
   /\ IsHook("PWriterExit")
   /\ (/\ closed /\ Cardinality(exited) = W /\ fusion = {} /\ inQueue = 0 /\ ~writerDone      \* NothingLost
-      /\ DOMAIN written = seen                                                                \* AllAddressed
+      /\ dispatched = {} /\ DOMAIN written = seen                                            \* AllAddressed
       /\ Rec[l].b = addrLen /\ (seen # {} => \A i \in seen : i < addrLen)) = TRUE
   /\ writerDone' = TRUE
   /\ UNCHANGED <<W, maxQ, seen, dispatched, fusion, inQueue, busy, rel, written, filePos, addrLen, closed, exited, drift>>
